@@ -143,6 +143,7 @@ type Eval struct {
 	Calls       []CallRec
 	Exits       []Exit
 	Relied      map[*ssa.Global]bool // globals whose initial content was used (must be initialiser-only)
+	Touched     map[*ssa.Global]bool // globals used in a way the evaluator does not model (address used, unknown content loaded)
 	Notes       []string
 	Instrs      int
 	Loops       []LoopInfo
@@ -160,6 +161,7 @@ type Eval struct {
 	errObj      map[ssa.Instruction]*Obj                // per read call: what is known about its error on the current path
 	lastRets    []retRec                                // the individual returns of the function evaluated last
 	lkObj       map[ssa.Instruction]*Obj                // per word lookup: did it hit on the current path?
+	arrBuf      map[*Obj]*Obj                           // local byte array (cell) -> the buffer object its slices share
 	sites       []ssa.Instruction                       // call sites of the module functions being evaluated (innermost last)
 	alts        map[ssa.Instruction]map[*Obj]altContent // per guarded call: object contents on its success / failure return
 	LoopHits    map[ssa.Instruction]bool                // per word lookup inside a loop: every path to the back edge passed its hit edge
@@ -175,7 +177,7 @@ type LoopInfo struct {
 }
 
 func NewEval(p *Program, g *Globals, ctx *Ctx) *Eval {
-	return &Eval{P: p, G: g, Ctx: ctx, Relied: map[*ssa.Global]bool{}}
+	return &Eval{P: p, G: g, Ctx: ctx, Relied: map[*ssa.Global]bool{}, Touched: map[*ssa.Global]bool{}}
 }
 
 func (e *Eval) newObj(k ObjKind, site ssa.Instruction, note string) *Obj {
@@ -1395,6 +1397,39 @@ func (e *Eval) refinements(fr *frame, b *ssa.BasicBlock) map[ssa.Value]AV {
 			}
 		}
 	}
+	// v, ok := m[k]: on the edge where ok is false, v is the zero value of its type
+	for _, c := range e.ctrlEdges(b) {
+		cv := c.If.Cond
+		hold := c.Taken
+		for {
+			u, ok := cv.(*ssa.UnOp)
+			if !ok || u.Op != token.NOT {
+				break
+			}
+			hold = !hold
+			cv = u.X
+		}
+		ex, ok := cv.(*ssa.Extract)
+		if !ok || ex.Index != 1 || hold {
+			continue
+		}
+		lk, ok := ex.Tuple.(*ssa.Lookup)
+		if !ok || !lk.CommaOk || lk.Referrers() == nil {
+			continue
+		}
+		for _, ref := range *lk.Referrers() {
+			vx, ok := ref.(*ssa.Extract)
+			if !ok || vx.Index != 0 {
+				continue
+			}
+			if bt, ok := vx.Type().Underlying().(*types.Basic); ok && bt.Info()&types.IsInteger != 0 {
+				if over == nil {
+					over = map[ssa.Value]AV{}
+				}
+				over[vx] = CInt(0)
+			}
+		}
+	}
 	return over
 }
 
@@ -1544,6 +1579,12 @@ func (e *Eval) relSlice(fr *frame, x *ssa.Slice, lo, hi IntV) bool {
 			hiBelow = true // len(base) >= hi
 		}
 	}
+	if c, ok := x.High.(*ssa.Call); ok && lc == 0 && x.Max == nil {
+		// x[:len(x)] and x[:cap(x)] are always within bounds
+		if bi, ok := c.Call.Value.(*ssa.Builtin); ok && (bi.Name() == "len" || bi.Name() == "cap") && len(c.Call.Args) == 1 && c.Call.Args[0] == base {
+			return true
+		}
+	}
 	switch {
 	case x.High == nil:
 		return lc <= minLen
@@ -1585,6 +1626,52 @@ func (e *Eval) nonNegByRelations(b *ssa.BasicBlock, v ssa.Value) bool {
 }
 
 // relBound: the dominating comparisons establish 0 <= idx < len(base) for these SSA values.
+// sameCellLoads: base is `*p` for a variable cell p (a captured variable or a local) of a
+// function that never stores to p and calls nothing but builtins: every other load of p in
+// that function yields the same value (nothing can run in between that changes it).
+func sameCellLoads(base ssa.Value) []ssa.Value {
+	ld, ok := base.(*ssa.UnOp)
+	if !ok || ld.Op != token.MUL {
+		return nil
+	}
+	switch ld.X.(type) {
+	case *ssa.FreeVar, *ssa.Alloc:
+	default:
+		return nil
+	}
+	fn := ld.Parent()
+	var out []ssa.Value
+	for _, b := range fn.Blocks {
+		for _, in := range b.Instrs {
+			switch x := in.(type) {
+			case *ssa.Store:
+				if x.Addr == ld.X {
+					return nil
+				}
+			case ssa.CallInstruction:
+				if _, isBuiltin := x.Common().Value.(*ssa.Builtin); !isBuiltin {
+					return nil
+				}
+			case *ssa.UnOp:
+				if x.Op == token.MUL && x.X == ld.X && x != ld {
+					out = append(out, x)
+				}
+			}
+		}
+	}
+	if al, ok := ld.X.(*ssa.Alloc); ok {
+		// a local cell: its address must not be used for anything but loads (no closure captures it)
+		for _, ref := range *al.Referrers() {
+			if u, ok := ref.(*ssa.UnOp); !ok || u.Op != token.MUL {
+				if _, isDbg := ref.(*ssa.DebugRef); !isDbg {
+					return nil
+				}
+			}
+		}
+	}
+	return out
+}
+
 func (e *Eval) relBound(fr *frame, b *ssa.BasicBlock, idx, base ssa.Value, idxAV IntV, strict bool) bool {
 	if idx == nil || base == nil || b == nil {
 		return false
@@ -1611,6 +1698,9 @@ func (e *Eval) relBound(fr *frame, b *ssa.BasicBlock, idx, base ssa.Value, idxAV
 		if u := lenOperand(mk.Len); u != nil {
 			sameLen[u] = true
 		}
+	}
+	for _, v := range sameCellLoads(base) {
+		sameLen[v] = true
 	}
 	isLenOfBase := func(v ssa.Value) bool {
 		u := lenOperand(v)
@@ -1747,6 +1837,11 @@ func (e *Eval) val(fr *frame, v ssa.Value) AV {
 	case *ssa.Const:
 		return e.constVal(c)
 	case *ssa.Global:
+		if c.Pkg != nil && e.Touched != nil && e.P.InModule(c.Pkg) {
+			// the address of a package variable used as a value (a method called on it, a
+			// field or element of it addressed): what it holds matters to this evaluation
+			e.Touched[c] = true
+		}
 		return PtrV{G: c}
 	case *ssa.Function:
 		return FuncV{Fn: c}
@@ -2139,6 +2234,12 @@ func (e *Eval) alloc(fr *frame, x *ssa.Alloc, st State) AV {
 			e.setContentFresh(st, o, VecC{Elems: elems})
 			return PtrV{O: o}
 		}
+	}
+	if isNamed(et, "bytes", "Buffer") {
+		// a local bytes.Buffer: tracked for the generator (render into memory, then write the file)
+		o := e.newObj(okCell, x, "bytes.Buffer")
+		e.setContentFresh(st, o, CellC{CStr("")})
+		return ResV{Kind: "bytes.Buffer", O: o, Site: x}
 	}
 	if isNamed(et, "strings", "Builder") {
 		o := e.newObj(okSB, x, "strings.Builder")
@@ -2650,6 +2751,26 @@ func rangeArith(a, b IntV, T int64, f func(p, q int64) (int64, bool)) IntV {
 	return RangeInt(lo, hi)
 }
 
+// compareInd: `ind op k` for an indicator (1 iff its condition holds, else 0) and a constant.
+func (e *Eval) compareInd(x *ssa.BinOp, iv IndV, other AV, op token.Token) AV {
+	other2, ok := other.(IntV)
+	k, isConst := other2.Const()
+	if !ok || !isConst {
+		return BoolV{C: &Cond{Kind: "other", Desc: fmt.Sprintf("%v %s %v", iv, op, other)}}
+	}
+	at1, at0 := cmpHolds(1, op, k), cmpHolds(0, op, k)
+	switch {
+	case at1 && at0:
+		return KBool(true)
+	case !at1 && !at0:
+		return KBool(false)
+	case at1:
+		return BoolV{C: iv.C}
+	default:
+		return BoolV{C: iv.C, Neg: true}
+	}
+}
+
 func (e *Eval) compare(fr *frame, x *ssa.BinOp, a, b AV) AV {
 	T := fr.T()
 	if cv, ok := a.(CmpV); ok {
@@ -2659,6 +2780,15 @@ func (e *Eval) compare(fr *frame, x *ssa.BinOp, a, b AV) AV {
 			}
 		}
 		return BoolV{C: &Cond{Kind: "other", Desc: fmt.Sprintf("%v %s %v", a, x.Op, b)}}
+	}
+	if iv, ok := b.(IndV); ok {
+		if _, isInd := a.(IndV); !isInd {
+			// constant on the left: same comparison with the sides exchanged
+			return e.compareInd(x, iv, a, flipOp(x.Op))
+		}
+	}
+	if iv, ok := a.(IndV); ok {
+		return e.compareInd(x, iv, b, x.Op)
 	}
 	if ia, ok := a.(IntV); ok {
 		if ib, ok := b.(IntV); ok {
@@ -2799,6 +2929,12 @@ func (e *Eval) load(fr *frame, x *ssa.UnOp, a AV, st State) AV {
 		case CellC:
 			if c.V == nil {
 				return e.zeroOf(x.Type())
+			}
+			if bv, ok := c.V.(BytesV); ok && bv.Obj != nil {
+				if _, isArr := x.Type().Underlying().(*types.Array); isArr {
+					// the array copied by value: its current content, no longer tied to the buffer
+					return stripObj(e.resolveBytes(bv, st))
+				}
 			}
 			return c.V
 		case VecC:
@@ -3134,7 +3270,7 @@ func (e *Eval) slice(fr *frame, x *ssa.Slice, st State) AV {
 		switch c := st[p.O].(type) {
 		case CellC:
 			if bv, ok := c.V.(BytesV); ok {
-				base = bv
+				base = e.arrayBuffer(fr, x, p.O, bv, st)
 			}
 		case VecC:
 			if x.Low == nil && x.High == nil {
@@ -3205,10 +3341,7 @@ func (e *Eval) slice(fr *frame, x *ssa.Slice, st State) AV {
 					if b.Obj != nil && cl == 0 && ch == total {
 						r.Obj = b.Obj
 					} else if b.Obj != nil || b.WinOf != nil {
-						r.WinOf = b.Obj
-						if b.WinOf != nil {
-							r.WinOf = b.WinOf
-						}
+						return e.window(b, cl, ch, st)
 					}
 					return r
 				}
@@ -3217,6 +3350,11 @@ func (e *Eval) slice(fr *frame, x *ssa.Slice, st State) AV {
 		r := BytesV{Src: "⊤: slice of " + b.Src}
 		if okl && okh {
 			r.LenKnown, r.Len = true, K(ch-cl)
+		}
+		if okl && okh && cl >= 0 && cl <= ch && (b.Obj != nil || (b.WinOf != nil && b.WinConst)) {
+			if w := e.window(b, cl, ch, st); w.WinConst {
+				return w
+			}
 		}
 		if b.Obj != nil || b.WinOf != nil {
 			// a window into a mutable buffer: writes through it change (and, unless recognised, blur) the buffer
@@ -3252,8 +3390,52 @@ func (e *Eval) slice(fr *frame, x *ssa.Slice, st State) AV {
 		if full {
 			return base
 		}
+	case LimbsV:
+		return b // any sub-slice of the limbs still shares the integer's memory
 	}
 	return e.topOf(x.Type(), "slice of "+shortAV(base))
+}
+
+// window is the sub-slice [lo, hi) of a buffer-backed byte slice: a view, not a snapshot —
+// what it holds is read from the buffer whenever it is needed (resolveBytes), so that writes
+// through the buffer, through this window or through another one are seen.
+func (e *Eval) window(b BytesV, lo, hi int64, st State) BytesV {
+	r := BytesV{LenKnown: true, Len: K(hi - lo), Src: "window", WinConst: true, WinN: hi - lo}
+	switch {
+	case b.Obj != nil:
+		r.WinOf, r.WinOff = b.Obj, lo
+	case b.WinOf != nil && b.WinConst:
+		r.WinOf, r.WinOff = b.WinOf, b.WinOff+lo
+	default:
+		return BytesV{Src: "⊤: slice of " + b.Src}
+	}
+	return r
+}
+
+// arrayBuffer: a local byte array whose slice is taken becomes a buffer object (the array
+// and every slice of it share it); the array variable keeps a value that points there.
+func (e *Eval) arrayBuffer(fr *frame, x ssa.Instruction, cell *Obj, bv BytesV, st State) BytesV {
+	if bv.Obj != nil {
+		return e.resolveBytes(bv, st)
+	}
+	if bv.WinOf != nil || bv.Param != nil || !bv.LenKnown {
+		return bv
+	}
+	if e.arrBuf == nil {
+		e.arrBuf = map[*Obj]*Obj{}
+	}
+	bo := e.arrBuf[cell]
+	if bo == nil {
+		bo = e.newObj(okBuf, x, "backing array of "+cell.Note)
+		e.arrBuf[cell] = bo
+	}
+	content := bv
+	content.Obj = nil
+	e.setContent(fr, st, bo, BufC{content})
+	alias := content
+	alias.Obj = bo
+	e.setContent(fr, st, cell, CellC{alias})
+	return alias
 }
 
 func (e *Eval) lookup(fr *frame, x *ssa.Lookup, st State) AV {
@@ -3376,6 +3558,18 @@ func (e *Eval) store(fr *frame, x *ssa.Store, st State) {
 		e.escape(fr, st, v, "stored to global")
 	case p.O != nil:
 		if p.O.Kind == okCell {
+			if cc, ok := st[p.O].(CellC); ok {
+				if cur, ok := cc.V.(BytesV); ok && cur.Obj != nil && e.arrBuf[p.O] == cur.Obj {
+					// a whole array value assigned to an array whose slices are out: they see it
+					if nv, ok := v.(BytesV); ok {
+						nv = stripObj(e.resolveBytes(nv, st))
+						e.setContent(fr, st, cur.Obj, BufC{nv})
+					} else {
+						e.setContent(fr, st, cur.Obj, topContent(cur.Obj, "whole-array store"))
+					}
+					return
+				}
+			}
 			e.setContent(fr, st, p.O, CellC{v})
 			return
 		}
@@ -3405,6 +3599,11 @@ func (e *Eval) storeElem(fr *frame, x *ssa.Store, el *ElemRef, v AV, st State) {
 				}
 			}
 			if cc, ok := st[b.O].(CellC); ok {
+				if bv, ok := cc.V.(BytesV); ok && bv.Obj != nil {
+					// the array shares a buffer object with its slices
+					e.storeElem(fr, x, &ElemRef{Base: bv, Idx: el.Idx}, v, st)
+					return
+				}
 				if bv, ok := cc.V.(BytesV); ok {
 					// one byte of a local byte array
 					c, okc := el.Idx.Const()
@@ -3510,6 +3709,17 @@ func (e *Eval) storeElem(fr *frame, x *ssa.Store, el *ElemRef, v AV, st State) {
 		}
 		e.setContent(fr, st, b.O, topContent(b.O, "element store"))
 	case BytesV:
+		if b.Obj == nil && b.WinOf != nil && b.WinConst {
+			if c, ok := el.Idx.Const(); ok && c >= 0 && c < b.WinN {
+				if bc, ok := st[b.WinOf].(BufC); ok && bc.B.LenKnown {
+					// element c of the window is element WinOff+c of the buffer
+					base := bc.B
+					base.Obj = b.WinOf
+					e.storeElem(fr, x, &ElemRef{Base: base, Idx: CInt(b.WinOff + c)}, v, st)
+					return
+				}
+			}
+		}
 		if b.Obj != nil {
 			cur, _ := st[b.Obj].(BufC)
 			nb := BytesV{LenKnown: b.LenKnown, Len: b.Len, LenSym: cur.B.LenSym, Src: "⊤: element written directly"}
@@ -3561,6 +3771,8 @@ func (e *Eval) storeElem(fr *frame, x *ssa.Store, el *ElemRef, v AV, st State) {
 		}
 	case *ListV:
 		e.event("E1", Violated, x, "store into word list %s", b.Name())
+	case LimbsV:
+		e.setContent(fr, st, b.Of, BigTop("limbs written directly"))
 	case *TokensV:
 		// the token slice is held as a value (token i of the split input): after a store into it
 		// that is no longer what its elements are
